@@ -9,6 +9,7 @@ ident_values), the cost window arithmetic is specs/ctx_policy.window; hashes are
 import os
 import random
 import sys
+from contextlib import contextmanager
 
 sys.path.insert(0, os.path.dirname(os.path.dirname(os.path.abspath(__file__))))
 
@@ -34,6 +35,19 @@ def ctxkw(h):
     return kw
 
 
+@contextmanager
+def guarded(g, name, section):
+    """an exception escaping a library call that the property says must succeed is a failure, not a harness crash"""
+    try:
+        yield
+    except Exception as err:  # noqa: BLE001
+        import traceback
+
+        tb = traceback.extract_tb(err.__traceback__)
+        where = [f"{os.path.basename(fr.filename)}:{fr.lineno}" for fr in tb[-3:]]
+        g.fail(f"crash:{section}:{name}:{type(err).__name__}", f"call raised unexpectedly: {err}"[:200], {"hasher": name, "section": section, "trace": where})
+
+
 class Subject:
     """one hasher under test"""
 
@@ -54,7 +68,13 @@ class Subject:
             if name.endswith("bsdi_crypt"):
                 self.lo, self.mid, self.hi = 3, 7, 11  # odd values: even rounds are flagged by the scheme itself
 
-    def hash(self, hh):
+    def hash(self, hh, limit=True):
+        if limit and self.has_rounds:
+            # never start an expensive computation because a setting leaked: report it instead (see guarded)
+            d = hh.default_rounds
+            cap = self.hi + 200 if self.f["cost"] == "linear" else self.hi + 2
+            if d is None or d > cap:
+                raise RuntimeError(f"hasher about to be used has default cost {d!r}, expected at most {cap}")
         return hh.hash(PW, **self.kw)
 
     def parse(self, hh, s):
@@ -144,118 +164,119 @@ def build(tier, rng):
         "every hasher with a cost setting x rounds | min/max/default (names and *_desired_* aliases) | vary_rounds (int, float, percent, strings) at cheap values inside the limits, one below / above the hard limits x relaxed on/off x ints or decimal strings; hashes parsed back; update check at window edges -1/0/+1",
     )
     for s in subjects:
-        if not s.has_rounds:
-            continue
-        h, f, lo, mid, hi = s.h, s.f, s.lo, s.mid, s.hi
-        reps = 1 if s.name in SLOW else 3
-        probe_cache = {}
+        with guarded(g, s.name, "rounds"):
+            if not s.has_rounds:
+                continue
+            h, f, lo, mid, hi = s.h, s.f, s.lo, s.mid, s.hi
+            reps = 1 if s.name in SLOW else 3
+            probe_cache = {}
 
-        def probe(c, s=s, probe_cache=probe_cache):
-            if c not in probe_cache:
-                probe_cache[c] = s.with_rounds(c)
-            return probe_cache[c]
+            def probe(c, s=s, probe_cache=probe_cache):
+                if c not in probe_cache:
+                    probe_cache[c] = s.with_rounds(c)
+                return probe_cache[c]
 
-        def flagged_exactly(child, a, b, tag, s=s, f=f, probe=probe):
-            step = 2 if s.name.endswith("bsdi_crypt") else 1
-            for c in sorted({a - step, a, b, b + step}):
-                if c < f["hmin"] or c > f["hmax"] or (s.name in SLOW and c not in (a, b + step)):
-                    continue
-                got = child.needs_update(probe(c))
-                g.check(got == (c < a or c > b), f"window-check:{s.name}", "update check does not flag exactly the hashes outside the configured window", {"hasher": s.name, "using": tag, "cost": c, "window": [a, b], "got": got})
-
-        # -- rounds=v pins min, max and default
-        for v in (lo, str(mid)):
-            iv = int(v)
-            child = h.using(rounds=v)
-            g.case((s.name, "rounds", v))
-            g.check((child.min_desired_rounds, child.max_desired_rounds, child.default_rounds) == (iv, iv, iv), f"rounds-attrs:{s.name}", "rounds=v does not set min, max and default", {"hasher": s.name, "rounds": v, "got": [child.min_desired_rounds, child.max_desired_rounds, child.default_rounds]})
-            for _ in range(reps):
-                hs = s.hash(child)
-                g.check(s.parse(child, hs).rounds == iv, f"rounds-carried:{s.name}", "hash does not carry the configured cost", {"hasher": s.name, "rounds": v, "hash": hs})
-                g.check(child.needs_update(hs) is False, f"fresh-flagged:{s.name}", "own fresh hash flagged", {"hasher": s.name, "rounds": v, "hash": hs})
-            flagged_exactly(child, iv, iv, f"rounds={v!r}")
-            frame(g, s, f"using(rounds={v!r})")
-        # -- explicit window, both spellings, numbers and strings
-        for kw in (
-            dict(min_rounds=lo, max_rounds=hi, default_rounds=mid),
-            dict(min_desired_rounds=str(lo), max_desired_rounds=str(hi), default_rounds=str(mid)),
-            dict(min_rounds=lo, max_rounds=lo),
-            dict(min_rounds=hi, max_desired_rounds=hi, default_rounds=hi, relaxed=True),
-        ):
-            child = h.using(**kw)
-            a = int(kw.get("min_rounds", kw.get("min_desired_rounds")))
-            b = int(kw.get("max_rounds", kw.get("max_desired_rounds")))
-            d = int(kw["default_rounds"]) if "default_rounds" in kw else min(max(f["default"], a), b)
-            g.case((s.name, "window", repr(kw)))
-            g.check((child.min_desired_rounds, child.max_desired_rounds, child.default_rounds) == (a, b, d), f"window-attrs:{s.name}", "configured window / default not taken over (default clipped into the window)", {"hasher": s.name, "using": repr(kw), "got": [child.min_desired_rounds, child.max_desired_rounds, child.default_rounds], "want": [a, b, d]})
-            for _ in range(reps):
-                hs = s.hash(child)
-                g.check(s.parse(child, hs).rounds == d, f"rounds-carried:{s.name}", "hash does not carry the configured default cost", {"hasher": s.name, "using": repr(kw), "hash": hs})
-                g.check(child.needs_update(hs) is False, f"fresh-flagged:{s.name}", "own fresh hash flagged", {"hasher": s.name, "using": repr(kw), "hash": hs})
-            flagged_exactly(child, a, b, repr(kw))
-            frame(g, s, f"using({kw!r})")
-        # -- the hasher's own default is clipped into a one-sided window
-        child = h.using(max_rounds=hi)
-        want = min(f["default"], hi)
-        g.case((s.name, "max-only"))
-        g.check(child.default_rounds == want and child.min_desired_rounds is None, f"default-clipped:{s.name}", "default not clipped to the configured maximum", {"hasher": s.name, "max_rounds": hi, "default": child.default_rounds})
-        hs = s.hash(child)
-        g.check(s.parse(child, hs).rounds == want or (s.name.endswith("bsdi_crypt") and s.parse(child, hs).rounds == want | 1 <= hi), f"rounds-carried:{s.name}", "hash does not carry the clipped default", {"hasher": s.name, "max_rounds": hi, "hash": hs})
-        big = f["default"] + 3 if f["default"] + 3 <= f["hmax"] else f["hmax"]
-        child = h.using(min_rounds=big)
-        g.check(child.default_rounds == max(f["default"], big), f"default-clipped:{s.name}", "default not raised to the configured minimum", {"hasher": s.name, "min_rounds": big, "default": child.default_rounds})
-        frame(g, s, "one-sided windows")
-        # -- vary_rounds stays inside the window
-        if s.name not in SLOW:
-            for vary in (1, 2, 100, 0.5, 1.0, "10%", "50%", "1", "0.3", 0):
-                opts = dict(min_rounds=lo, max_rounds=hi, default_rounds=mid, vary_rounds=vary)
-                w = P.window(f, opts)
-                child = h.using(**opts)
-                g.case((s.name, "vary", repr(vary)))
-                seen = set()
-                for _ in range(8 if thorough else 4):
-                    hs = s.hash(child)
-                    c = s.parse(child, hs).rounds
-                    seen.add(c)
-                    ok = P.fresh_cost_ok("bsdi_crypt" if s.name.endswith("bsdi_crypt") else s.name, c, w)
-                    g.check(ok, f"vary-range:{s.name}", "varied cost leaves default +/- vary_rounds or the configured window", {"hasher": s.name, "using": repr(opts), "cost": c, "range": [w["glo"], w["ghi"]]})
-                    g.check(child.needs_update(hs) is False, f"fresh-flagged:{s.name}", "own fresh hash flagged", {"hasher": s.name, "using": repr(opts), "hash": hs})
-                if not w["varies"]:
-                    g.check(seen == {mid} or s.name.endswith("bsdi_crypt"), f"vary-zero:{s.name}", "cost varies although the range is a single value", {"hasher": s.name, "vary": vary, "seen": sorted(seen)})
-            frame(g, s, "vary_rounds")
-            for bad in (-1, 1.5, "-5", "150%"):
-                refused(g, s, f"vary-refusal:{s.name}", "vary_rounds outside 0..1 / below 0 accepted", vary_rounds=bad, default_rounds=mid)
-        # -- beyond the hard limits: refused, or clamped when relaxed
-        below, above = f["hmin"] - 1, (f["hmax"] + 1 if f["hmax"] else None)
-        for key in ("rounds", "min_rounds", "max_rounds", "default_rounds", "min_desired_rounds", "max_desired_rounds"):
-            for val, limit in ((below, f["hmin"]), (above, f["hmax"])):
-                if val is None or val < -1:
-                    continue
-                for v in (val, str(val)):
-                    refused(g, s, f"hard-limit-refusal:{s.name}", "value outside the hard limits accepted", **{key: v})
-                    o = outcome(h.using, relaxed=True, **{key: v})
-                    g.case((s.name, "relaxed", key, v))
-                    if not g.check(o[0] == "ok", f"hard-limit-relaxed:{s.name}", "relaxed=True does not clamp", {"hasher": s.name, "using": {key: v}, "outcome": repr(o)[:200]}):
+            def flagged_exactly(child, a, b, tag, s=s, f=f, probe=probe):
+                step = 2 if s.name.endswith("bsdi_crypt") else 1
+                for c in sorted({a - step, a, b, b + step}):
+                    if c < f["hmin"] or c > f["hmax"] or (s.name in SLOW and c not in (a, b + step)):
                         continue
-                    child = o[1]
-                    got = {"rounds": (child.min_desired_rounds, child.max_desired_rounds, child.default_rounds), "min_rounds": (child.min_desired_rounds,), "min_desired_rounds": (child.min_desired_rounds,), "max_rounds": (child.max_desired_rounds,), "max_desired_rounds": (child.max_desired_rounds,), "default_rounds": (child.default_rounds,)}[key]
-                    g.check(set(got) == {limit}, f"hard-limit-relaxed:{s.name}", "relaxed=True does not clamp to the limit", {"hasher": s.name, "using": {key: v}, "got": list(got), "limit": limit})
-                    g.check(f["hmin"] <= child.default_rounds <= f["hmax"], f"hard-limit-default:{s.name}", "default cost outside the hard limits", {"hasher": s.name, "using": {key: v}, "default": child.default_rounds})
-                    if child.default_rounds <= hi and s.name not in SLOW:
+                    got = child.needs_update(probe(c))
+                    g.check(got == (c < a or c > b), f"window-check:{s.name}", "update check does not flag exactly the hashes outside the configured window", {"hasher": s.name, "using": tag, "cost": c, "window": [a, b], "got": got})
+
+            # -- rounds=v pins min, max and default
+            for v in (lo, str(mid)):
+                iv = int(v)
+                child = h.using(rounds=v)
+                g.case((s.name, "rounds", v))
+                g.check((child.min_desired_rounds, child.max_desired_rounds, child.default_rounds) == (iv, iv, iv), f"rounds-attrs:{s.name}", "rounds=v does not set min, max and default", {"hasher": s.name, "rounds": v, "got": [child.min_desired_rounds, child.max_desired_rounds, child.default_rounds]})
+                for _ in range(reps):
+                    hs = s.hash(child)
+                    g.check(s.parse(child, hs).rounds == iv, f"rounds-carried:{s.name}", "hash does not carry the configured cost", {"hasher": s.name, "rounds": v, "hash": hs})
+                    g.check(child.needs_update(hs) is False, f"fresh-flagged:{s.name}", "own fresh hash flagged", {"hasher": s.name, "rounds": v, "hash": hs})
+                flagged_exactly(child, iv, iv, f"rounds={v!r}")
+                frame(g, s, f"using(rounds={v!r})")
+            # -- explicit window, both spellings, numbers and strings
+            for kw in (
+                dict(min_rounds=lo, max_rounds=hi, default_rounds=mid),
+                dict(min_desired_rounds=str(lo), max_desired_rounds=str(hi), default_rounds=str(mid)),
+                dict(min_rounds=lo, max_rounds=lo),
+                dict(min_rounds=hi, max_desired_rounds=hi, default_rounds=hi, relaxed=True),
+            ):
+                child = h.using(**kw)
+                a = int(kw.get("min_rounds", kw.get("min_desired_rounds")))
+                b = int(kw.get("max_rounds", kw.get("max_desired_rounds")))
+                d = int(kw["default_rounds"]) if "default_rounds" in kw else min(max(f["default"], a), b)
+                g.case((s.name, "window", repr(kw)))
+                g.check((child.min_desired_rounds, child.max_desired_rounds, child.default_rounds) == (a, b, d), f"window-attrs:{s.name}", "configured window / default not taken over (default clipped into the window)", {"hasher": s.name, "using": repr(kw), "got": [child.min_desired_rounds, child.max_desired_rounds, child.default_rounds], "want": [a, b, d]})
+                for _ in range(reps):
+                    hs = s.hash(child)
+                    g.check(s.parse(child, hs).rounds == d, f"rounds-carried:{s.name}", "hash does not carry the configured default cost", {"hasher": s.name, "using": repr(kw), "hash": hs})
+                    g.check(child.needs_update(hs) is False, f"fresh-flagged:{s.name}", "own fresh hash flagged", {"hasher": s.name, "using": repr(kw), "hash": hs})
+                flagged_exactly(child, a, b, repr(kw))
+                frame(g, s, f"using({kw!r})")
+            # -- the hasher's own default is clipped into a one-sided window
+            child = h.using(max_rounds=hi)
+            want = min(f["default"], hi)
+            g.case((s.name, "max-only"))
+            g.check(child.default_rounds == want and child.min_desired_rounds is None, f"default-clipped:{s.name}", "default not clipped to the configured maximum", {"hasher": s.name, "max_rounds": hi, "default": child.default_rounds})
+            hs = s.hash(child)
+            g.check(s.parse(child, hs).rounds == want or (s.name.endswith("bsdi_crypt") and s.parse(child, hs).rounds == want | 1 <= hi), f"rounds-carried:{s.name}", "hash does not carry the clipped default", {"hasher": s.name, "max_rounds": hi, "hash": hs})
+            big = f["default"] + 3 if f["default"] + 3 <= f["hmax"] else f["hmax"]
+            child = h.using(min_rounds=big)
+            g.check(child.default_rounds == max(f["default"], big), f"default-clipped:{s.name}", "default not raised to the configured minimum", {"hasher": s.name, "min_rounds": big, "default": child.default_rounds})
+            frame(g, s, "one-sided windows")
+            # -- vary_rounds stays inside the window
+            if s.name not in SLOW:
+                for vary in (1, 2, 100, 0.5, 1.0, "10%", "50%", "1", "0.3", 0):
+                    opts = dict(min_rounds=lo, max_rounds=hi, default_rounds=mid, vary_rounds=vary)
+                    w = P.window(f, opts)
+                    child = h.using(**opts)
+                    g.case((s.name, "vary", repr(vary)))
+                    seen = set()
+                    for _ in range(8 if thorough else 4):
                         hs = s.hash(child)
                         c = s.parse(child, hs).rounds
-                        g.check(f["hmin"] <= c <= f["hmax"], f"hard-limit-hash:{s.name}", "hash outside the hard limits", {"hasher": s.name, "using": {key: v}, "hash": hs})
-        frame(g, s, "beyond hard limits")
-        # -- inconsistent / mistyped
-        refused(g, s, f"inconsistent:{s.name}", "max below min accepted", min_rounds=hi, max_rounds=lo)
-        refused(g, s, f"inconsistent:{s.name}", "max below min accepted (relaxed)", min_rounds=hi, max_rounds=lo, relaxed=True)
-        refused(g, s, f"inconsistent:{s.name}", "default above max accepted", min_rounds=lo, max_rounds=mid, default_rounds=hi)
-        refused(g, s, f"inconsistent:{s.name}", "default below min accepted", min_rounds=mid, max_rounds=hi, default_rounds=lo)
-        refused(g, s, f"alias-clash:{s.name}", "both spellings accepted", min_rounds=lo, min_desired_rounds=lo)
-        refused(g, s, f"alias-clash:{s.name}", "both spellings accepted", max_rounds=hi, max_desired_rounds=hi)
-        refused(g, s, f"mistyped:{s.name}", "non-integer rounds accepted", rounds=1.5)
-        refused(g, s, f"mistyped:{s.name}", "non-numeric string accepted", rounds="many")
-        frame(g, s, "refused settings")
+                        seen.add(c)
+                        ok = P.fresh_cost_ok("bsdi_crypt" if s.name.endswith("bsdi_crypt") else s.name, c, w)
+                        g.check(ok, f"vary-range:{s.name}", "varied cost leaves default +/- vary_rounds or the configured window", {"hasher": s.name, "using": repr(opts), "cost": c, "range": [w["glo"], w["ghi"]]})
+                        g.check(child.needs_update(hs) is False, f"fresh-flagged:{s.name}", "own fresh hash flagged", {"hasher": s.name, "using": repr(opts), "hash": hs})
+                    if not w["varies"]:
+                        g.check(seen == {mid} or s.name.endswith("bsdi_crypt"), f"vary-zero:{s.name}", "cost varies although the range is a single value", {"hasher": s.name, "vary": vary, "seen": sorted(seen)})
+                frame(g, s, "vary_rounds")
+                for bad in (-1, 1.5, "-5", "150%"):
+                    refused(g, s, f"vary-refusal:{s.name}", "vary_rounds outside 0..1 / below 0 accepted", vary_rounds=bad, default_rounds=mid)
+            # -- beyond the hard limits: refused, or clamped when relaxed
+            below, above = f["hmin"] - 1, (f["hmax"] + 1 if f["hmax"] else None)
+            for key in ("rounds", "min_rounds", "max_rounds", "default_rounds", "min_desired_rounds", "max_desired_rounds"):
+                for val, limit in ((below, f["hmin"]), (above, f["hmax"])):
+                    if val is None or val < -1:
+                        continue
+                    for v in (val, str(val)):
+                        refused(g, s, f"hard-limit-refusal:{s.name}", "value outside the hard limits accepted", **{key: v})
+                        o = outcome(h.using, relaxed=True, **{key: v})
+                        g.case((s.name, "relaxed", key, v))
+                        if not g.check(o[0] == "ok", f"hard-limit-relaxed:{s.name}", "relaxed=True does not clamp", {"hasher": s.name, "using": {key: v}, "outcome": repr(o)[:200]}):
+                            continue
+                        child = o[1]
+                        got = {"rounds": (child.min_desired_rounds, child.max_desired_rounds, child.default_rounds), "min_rounds": (child.min_desired_rounds,), "min_desired_rounds": (child.min_desired_rounds,), "max_rounds": (child.max_desired_rounds,), "max_desired_rounds": (child.max_desired_rounds,), "default_rounds": (child.default_rounds,)}[key]
+                        g.check(set(got) == {limit}, f"hard-limit-relaxed:{s.name}", "relaxed=True does not clamp to the limit", {"hasher": s.name, "using": {key: v}, "got": list(got), "limit": limit})
+                        g.check(f["hmin"] <= child.default_rounds <= f["hmax"], f"hard-limit-default:{s.name}", "default cost outside the hard limits", {"hasher": s.name, "using": {key: v}, "default": child.default_rounds})
+                        if child.default_rounds <= hi and s.name not in SLOW:
+                            hs = s.hash(child)
+                            c = s.parse(child, hs).rounds
+                            g.check(f["hmin"] <= c <= f["hmax"], f"hard-limit-hash:{s.name}", "hash outside the hard limits", {"hasher": s.name, "using": {key: v}, "hash": hs})
+            frame(g, s, "beyond hard limits")
+            # -- inconsistent / mistyped
+            refused(g, s, f"inconsistent:{s.name}", "max below min accepted", min_rounds=hi, max_rounds=lo)
+            refused(g, s, f"inconsistent:{s.name}", "max below min accepted (relaxed)", min_rounds=hi, max_rounds=lo, relaxed=True)
+            refused(g, s, f"inconsistent:{s.name}", "default above max accepted", min_rounds=lo, max_rounds=mid, default_rounds=hi)
+            refused(g, s, f"inconsistent:{s.name}", "default below min accepted", min_rounds=mid, max_rounds=hi, default_rounds=lo)
+            refused(g, s, f"alias-clash:{s.name}", "both spellings accepted", min_rounds=lo, min_desired_rounds=lo)
+            refused(g, s, f"alias-clash:{s.name}", "both spellings accepted", max_rounds=hi, max_desired_rounds=hi)
+            refused(g, s, f"mistyped:{s.name}", "non-integer rounds accepted", rounds=1.5)
+            refused(g, s, f"mistyped:{s.name}", "non-numeric string accepted", rounds="many")
+            frame(g, s, "refused settings")
     groups.append(g)
 
     # =============================================================================================
@@ -265,59 +286,60 @@ def build(tier, rng):
         "every hasher with salt_size: min, default, max (<=48), as int or string, one below / above the limits x relaxed on/off; every hasher with salt: pinned salt (taken from a parsed hash), too long (strict / relaxed truncation), too short; parsed back",
     )
     for s in subjects:
-        h = s.h
-        sk = h.setting_kwds
-        base_h = h.using(rounds=s.lo) if s.has_rounds else h
-        reps = 1 if s.name in SLOW else 3
-        if "salt_size" in sk:
-            mn, mx, df = h.min_salt_size, h.max_salt_size, h.default_salt_size
-            sizes = sorted({mn, df, min(mx or 48, 48)})
-            for size in sizes + [str(sizes[-1])]:
-                child = base_h.using(salt_size=size)
-                g.case((s.name, "salt_size", size))
-                g.check(child.default_salt_size == int(size), f"salt-size-attr:{s.name}", "salt_size not taken over", {"hasher": s.name, "salt_size": size, "got": child.default_salt_size})
-                for _ in range(reps):
-                    hs = s.hash(child)
-                    salt = s.parse(child, hs).salt
-                    g.check(len(salt) == int(size), f"salt-size-carried:{s.name}", "hash does not carry a salt of the configured size", {"hasher": s.name, "salt_size": size, "hash": hs, "salt": repr(salt)})
-            for val, limit in ((mn - 1, mn), ((mx + 1) if mx else None, mx)):
-                if val is None or val < 0:
-                    continue
-                refused(g, s, f"salt-size-refusal:{s.name}", "salt_size outside the limits accepted", salt_size=val)
-                o = outcome(base_h.using, salt_size=val, relaxed=True)
-                g.case((s.name, "salt_size-relaxed", val))
-                if g.check(o[0] == "ok" and o[1].default_salt_size == limit, f"salt-size-relaxed:{s.name}", "relaxed=True does not clamp salt_size to the limit", {"hasher": s.name, "salt_size": val, "outcome": repr(o)[:160]}):
-                    hs = s.hash(o[1])
-                    g.check(len(s.parse(o[1], hs).salt) == limit, f"salt-size-carried:{s.name}", "clamped salt size not carried", {"hasher": s.name, "salt_size": val, "hash": hs})
-            refused(g, s, f"salt-size-alias:{s.name}", "both spellings accepted", salt_size=sizes[0], default_salt_size=sizes[0])
-            frame(g, s, "salt_size")
-        if "salt" in sk and s.name != "cisco_type7":
-            child0 = base_h
-            salt = s.parse(child0, s.hash(child0)).salt
-            if salt is None:
-                continue
-            child = base_h.using(salt=salt)
-            g.case((s.name, "salt"))
-            for _ in range(2):
-                hs = s.hash(child)
-                g.check(s.parse(child, hs).salt == salt, f"salt-carried:{s.name}", "hash does not carry the pinned salt", {"hasher": s.name, "salt": repr(salt), "hash": hs})
-            if len(salt) >= 4:
-                other = s.parse(base_h, s.hash(base_h)).salt
-                g.check(other != salt, f"salt-leak:{s.name}", "the parent now produces the child's pinned salt", {"hasher": s.name, "salt": repr(salt)})
-            mn, mx = h.min_salt_size, h.max_salt_size
-            if mx and "bcrypt" not in s.name:
-                longer = salt + salt[:1] if salt else None
-                if longer and len(longer) > mx:
-                    refused(g, s, f"salt-too-long:{s.name}", "over-long salt accepted", salt=longer)
-                    o = outcome(base_h.using, salt=longer, relaxed=True)
-                    g.case((s.name, "salt-long-relaxed"))
-                    if g.check(o[0] == "ok", f"salt-too-long-relaxed:{s.name}", "relaxed=True does not truncate an over-long salt", {"hasher": s.name, "outcome": repr(o)[:160]}):
+        with guarded(g, s.name, "salt"):
+            h = s.h
+            sk = h.setting_kwds
+            base_h = h.using(rounds=s.lo) if s.has_rounds else h
+            reps = 1 if s.name in SLOW else 3
+            if "salt_size" in sk:
+                mn, mx, df = h.min_salt_size, h.max_salt_size, h.default_salt_size
+                sizes = sorted({mn, df, min(mx or 48, 48)})
+                for size in sizes + [str(sizes[-1])]:
+                    child = base_h.using(salt_size=size)
+                    g.case((s.name, "salt_size", size))
+                    g.check(child.default_salt_size == int(size), f"salt-size-attr:{s.name}", "salt_size not taken over", {"hasher": s.name, "salt_size": size, "got": child.default_salt_size})
+                    for _ in range(reps):
+                        hs = s.hash(child)
+                        salt = s.parse(child, hs).salt
+                        g.check(len(salt) == int(size), f"salt-size-carried:{s.name}", "hash does not carry a salt of the configured size", {"hasher": s.name, "salt_size": size, "hash": hs, "salt": repr(salt)})
+                for val, limit in ((mn - 1, mn), ((mx + 1) if mx else None, mx)):
+                    if val is None or val < 0:
+                        continue
+                    refused(g, s, f"salt-size-refusal:{s.name}", "salt_size outside the limits accepted", salt_size=val)
+                    o = outcome(base_h.using, salt_size=val, relaxed=True)
+                    g.case((s.name, "salt_size-relaxed", val))
+                    if g.check(o[0] == "ok" and o[1].default_salt_size == limit, f"salt-size-relaxed:{s.name}", "relaxed=True does not clamp salt_size to the limit", {"hasher": s.name, "salt_size": val, "outcome": repr(o)[:160]}):
                         hs = s.hash(o[1])
-                        g.check(s.parse(o[1], hs).salt == longer[:mx], f"salt-too-long-relaxed:{s.name}", "truncated salt is not the prefix of the given one", {"hasher": s.name, "hash": hs})
-            if mn and len(salt) >= mn:
-                refused(g, s, f"salt-too-short:{s.name}", "too short salt accepted", salt=salt[: mn - 1])
-                refused(g, s, f"salt-too-short:{s.name}", "too short salt accepted (relaxed)", salt=salt[: mn - 1], relaxed=True)
-            frame(g, s, "salt")
+                        g.check(len(s.parse(o[1], hs).salt) == limit, f"salt-size-carried:{s.name}", "clamped salt size not carried", {"hasher": s.name, "salt_size": val, "hash": hs})
+                refused(g, s, f"salt-size-alias:{s.name}", "both spellings accepted", salt_size=sizes[0], default_salt_size=sizes[0])
+                frame(g, s, "salt_size")
+            if "salt" in sk and s.name != "cisco_type7":
+                child0 = base_h
+                salt = s.parse(child0, s.hash(child0)).salt
+                if salt is None:
+                    continue
+                child = base_h.using(salt=salt)
+                g.case((s.name, "salt"))
+                for _ in range(2):
+                    hs = s.hash(child)
+                    g.check(s.parse(child, hs).salt == salt, f"salt-carried:{s.name}", "hash does not carry the pinned salt", {"hasher": s.name, "salt": repr(salt), "hash": hs})
+                if len(salt) >= 4:
+                    other = s.parse(base_h, s.hash(base_h)).salt
+                    g.check(other != salt, f"salt-leak:{s.name}", "the parent now produces the child's pinned salt", {"hasher": s.name, "salt": repr(salt)})
+                mn, mx = h.min_salt_size, h.max_salt_size
+                if mx and "bcrypt" not in s.name:
+                    longer = salt + salt[:1] if salt else None
+                    if longer and len(longer) > mx:
+                        refused(g, s, f"salt-too-long:{s.name}", "over-long salt accepted", salt=longer)
+                        o = outcome(base_h.using, salt=longer, relaxed=True)
+                        g.case((s.name, "salt-long-relaxed"))
+                        if g.check(o[0] == "ok", f"salt-too-long-relaxed:{s.name}", "relaxed=True does not truncate an over-long salt", {"hasher": s.name, "outcome": repr(o)[:160]}):
+                            hs = s.hash(o[1])
+                            g.check(s.parse(o[1], hs).salt == longer[:mx], f"salt-too-long-relaxed:{s.name}", "truncated salt is not the prefix of the given one", {"hasher": s.name, "hash": hs})
+                if mn and len(salt) >= mn:
+                    refused(g, s, f"salt-too-short:{s.name}", "too short salt accepted", salt=salt[: mn - 1])
+                    refused(g, s, f"salt-too-short:{s.name}", "too short salt accepted (relaxed)", salt=salt[: mn - 1], relaxed=True)
+                frame(g, s, "salt")
     groups.append(g)
 
     # =============================================================================================
@@ -327,149 +349,158 @@ def build(tier, rng):
         "ident: every ident value and alias of every multi-ident hasher ($2x$ excepted: documented unsupported), unknown ident; fshp variants 0..3 by number / digit string / digest name, unknown; bcrypt_sha256 version 1, 2, 3 x ident; scrypt block_size / parallelism 1, 2, 4, '3', 0 (strict / relaxed); scram algs lists / strings, without sha-1, over-long name; truncate_error True/False/'true'/'no'/'maybe' on every hasher that has it; unix_disabled markers; cisco_type7 salt 0..52, 53",
     )
     for s in subjects:
-        h = s.h
-        if s.wrapper or "ident" not in h.setting_kwds or not getattr(h, "ident_values", None):
-            continue
-        base_h = h.using(rounds=s.lo) if s.has_rounds else h
-        for v in h.ident_values:
-            if v == "$2x$":
+        with guarded(g, s.name, "ident"):
+            h = s.h
+            if s.wrapper or "ident" not in h.setting_kwds or not getattr(h, "ident_values", None):
                 continue
-            o = outcome(base_h.using, ident=v)
-            g.case((s.name, "ident", v))
-            if o[0] == "exc":
-                g.check(o[3], f"ident-refusal-class:{s.name}", "ident value refused with something else than a value error", {"hasher": s.name, "ident": v, "outcome": repr(o)})
-                continue
-            child = o[1]
-            g.check(child.default_ident == v, f"ident-attr:{s.name}", "ident not taken over", {"hasher": s.name, "ident": v, "got": child.default_ident})
-            hs = s.hash(child)
-            p = s.parse(child, hs)
-            literal = s.hash(base_h).startswith(h.default_ident)  # does this format spell the identifier out at the start?
-            g.check(p.ident == v and (hs.startswith(v) or not literal), f"ident-carried:{s.name}", "hash does not carry the configured identifier", {"hasher": s.name, "ident": v, "hash": hs})
-        for alias, target in (h.ident_aliases or {}).items():
-            if target == "$2x$":
-                continue
-            o = outcome(base_h.using, ident=alias)
-            g.case((s.name, "ident-alias", alias))
-            if o[0] == "ok":
-                g.check(o[1].default_ident == target, f"ident-alias:{s.name}", "alias resolves to a different identifier", {"hasher": s.name, "alias": alias, "got": o[1].default_ident})
-            else:
-                g.check(o[3], f"ident-refusal-class:{s.name}", "alias refused with something else than a value error", {"hasher": s.name, "alias": alias, "outcome": repr(o)})
-        refused(g, s, f"ident-unknown:{s.name}", "unknown identifier accepted", ident="$zz$")
-        refused(g, s, f"ident-alias-clash:{s.name}", "both spellings accepted", ident=h.ident_values[-1], default_ident=h.ident_values[-1])
-        frame(g, s, "ident")
+            base_h = h.using(rounds=s.lo) if s.has_rounds else h
+            for v in h.ident_values:
+                if v == "$2x$":
+                    continue
+                o = outcome(base_h.using, ident=v)
+                g.case((s.name, "ident", v))
+                if o[0] == "exc":
+                    g.check(o[3], f"ident-refusal-class:{s.name}", "ident value refused with something else than a value error", {"hasher": s.name, "ident": v, "outcome": repr(o)})
+                    continue
+                child = o[1]
+                g.check(child.default_ident == v, f"ident-attr:{s.name}", "ident not taken over", {"hasher": s.name, "ident": v, "got": child.default_ident})
+                hs = s.hash(child)
+                p = s.parse(child, hs)
+                literal = s.hash(base_h).startswith(h.default_ident)  # does this format spell the identifier out at the start?
+                g.check(p.ident == v and (hs.startswith(v) or not literal), f"ident-carried:{s.name}", "hash does not carry the configured identifier", {"hasher": s.name, "ident": v, "hash": hs})
+            for alias, target in (h.ident_aliases or {}).items():
+                if target == "$2x$":
+                    continue
+                o = outcome(base_h.using, ident=alias)
+                g.case((s.name, "ident-alias", alias))
+                if o[0] == "ok":
+                    g.check(o[1].default_ident == target, f"ident-alias:{s.name}", "alias resolves to a different identifier", {"hasher": s.name, "alias": alias, "got": o[1].default_ident})
+                else:
+                    g.check(o[3], f"ident-refusal-class:{s.name}", "alias refused with something else than a value error", {"hasher": s.name, "alias": alias, "outcome": repr(o)})
+            refused(g, s, f"ident-unknown:{s.name}", "unknown identifier accepted", ident="$zz$")
+            refused(g, s, f"ident-alias-clash:{s.name}", "both spellings accepted", ident=h.ident_values[-1], default_ident=h.ident_values[-1])
+            frame(g, s, "ident")
     by = {s.name: s for s in subjects}
     if "fshp" in by:
-        s = by["fshp"]
-        names = {0: "sha1", 1: "sha256", 2: "sha384", 3: "sha512"}
-        for v in range(4):
-            for spell in (v, str(v), names[v]):
-                child = s.h.using(variant=spell, rounds=2)
-                hs = s.hash(child)
-                g.case(("fshp", "variant", spell))
-                g.check(child.default_variant == v and hs.startswith("{FSHP%d|" % v) and s.parse(child, hs).variant == v, "variant:fshp", "hash does not carry the configured variant", {"variant": spell, "hash": hs})
-        for bad in (4, "9", "md5", -1):
-            refused(g, s, "variant-refusal:fshp", "unknown variant accepted", variant=bad)
-        refused(g, s, "variant-refusal:fshp", "mistyped variant accepted", variant=1.5)
-        frame(g, s, "variant")
+        with guarded(g, 'fshp', "fshp"):
+            s = by["fshp"]
+            names = {0: "sha1", 1: "sha256", 2: "sha384", 3: "sha512"}
+            for v in range(4):
+                for spell in (v, str(v), names[v]):
+                    child = s.h.using(variant=spell, rounds=2)
+                    hs = s.hash(child)
+                    g.case(("fshp", "variant", spell))
+                    g.check(child.default_variant == v and hs.startswith("{FSHP%d|" % v) and s.parse(child, hs).variant == v, "variant:fshp", "hash does not carry the configured variant", {"variant": spell, "hash": hs})
+            for bad in (4, "9", "md5", -1):
+                refused(g, s, "variant-refusal:fshp", "unknown variant accepted", variant=bad)
+            refused(g, s, "variant-refusal:fshp", "mistyped variant accepted", variant=1.5)
+            frame(g, s, "variant")
     if "bcrypt_sha256" in by:
-        s = by["bcrypt_sha256"]
-        for ver, ident, ok, prefix in ((2, None, True, "$bcrypt-sha256$v=2,t=2b,r=4$"), (1, None, True, "$bcrypt-sha256$2b,4$"), (1, "2a", True, "$bcrypt-sha256$2a,4$"), (2, "2b", True, "$bcrypt-sha256$v=2,t=2b,r=4$"), (2, "2a", False, None), (3, None, False, None), (0, None, False, None)):
-            kw = dict(version=ver, rounds=4)
-            if ident:
-                kw["ident"] = ident
-            g.case(("bcrypt_sha256", "version", ver, ident))
-            if not ok:
-                refused(g, s, "version-refusal:bcrypt_sha256", "unsupported version / ident combination accepted", **kw)
-                continue
-            child = s.h.using(**kw)
-            hs = s.hash(child)
-            g.check(child.version == ver and hs.startswith(prefix) and s.parse(child, hs).version == ver, "version:bcrypt_sha256", "hash does not carry the configured version / ident", {"using": repr(kw), "hash": hs})
-            g.check(child.verify(PW, hs), "version:bcrypt_sha256", "hash of the configured version does not verify", {"using": repr(kw), "hash": hs})
-        frame(g, s, "version")
-    if "scrypt" in by:
-        s = by["scrypt"]
-        for key, fmt in (("block_size", "r=%d,"), ("parallelism", "p=%d$")):
-            for v in (1, 2, 4, "3"):
-                child = s.h.using(rounds=2, **{key: v})
+        with guarded(g, 'bcrypt_sha256', "bcrypt_sha256"):
+            s = by["bcrypt_sha256"]
+            for ver, ident, ok, prefix in ((2, None, True, "$bcrypt-sha256$v=2,t=2b,r=4$"), (1, None, True, "$bcrypt-sha256$2b,4$"), (1, "2a", True, "$bcrypt-sha256$2a,4$"), (2, "2b", True, "$bcrypt-sha256$v=2,t=2b,r=4$"), (2, "2a", False, None), (3, None, False, None), (0, None, False, None)):
+                kw = dict(version=ver, rounds=4)
+                if ident:
+                    kw["ident"] = ident
+                g.case(("bcrypt_sha256", "version", ver, ident))
+                if not ok:
+                    refused(g, s, "version-refusal:bcrypt_sha256", "unsupported version / ident combination accepted", **kw)
+                    continue
+                child = s.h.using(**kw)
                 hs = s.hash(child)
-                g.case(("scrypt", key, v))
-                g.check(getattr(child, key) == int(v) and (fmt % int(v)) in hs and getattr(s.parse(child, hs), key) == int(v), f"{key}:scrypt", "hash does not carry the configured value", {"using": {key: v}, "hash": hs})
-                g.check(child.needs_update(hs) is False, "fresh-flagged:scrypt", "own fresh hash flagged", {"using": {key: v}, "hash": hs})
-                g.check(s.h.using(rounds=2).needs_update(hs) is (int(v) != getattr(s.h, key)), f"{key}-update:scrypt", "update check does not flag exactly the hashes with a different value", {"using": {key: v}, "hash": hs})
-            refused(g, s, f"{key}-refusal:scrypt", "value below 1 accepted", rounds=2, **{key: 0})
-            o = outcome(s.h.using, rounds=2, relaxed=True, **{key: 0})
-            g.case(("scrypt", key, "relaxed-0"))
-            g.check(o[0] == "ok" and getattr(o[1], key) == 1, f"{key}-relaxed:scrypt", "relaxed=True does not clamp to 1", {"outcome": repr(o)[:160]})
-        # found: using() validates the combination of the class it was called on, not of the result
-        o = outcome(s.h.using, rounds=2, block_size=2**29, parallelism=4)
-        g.case(("scrypt", "invalid-combination"))
-        if o[0] == "ok":
-            o2 = outcome(o[1].hash, PW)
-            g.check(o2[0] == "ok", "scrypt:invalid-combination-accepted", "using() accepts block_size * parallelism >= 2**30 (it validates the parent's settings instead of the new ones); the derived hasher cannot hash: " + repr(o2)[:120], {"using": "scrypt.using(rounds=2, block_size=2**29, parallelism=4)"})
-        else:
-            g.check(o[3], "scrypt:invalid-combination-accepted", "invalid combination refused with something else than a value error", {"outcome": repr(o)})
-        frame(g, s, "block_size / parallelism")
+                g.check(child.version == ver and hs.startswith(prefix) and s.parse(child, hs).version == ver, "version:bcrypt_sha256", "hash does not carry the configured version / ident", {"using": repr(kw), "hash": hs})
+                g.check(child.verify(PW, hs), "version:bcrypt_sha256", "hash of the configured version does not verify", {"using": repr(kw), "hash": hs})
+            frame(g, s, "version")
+    if "scrypt" in by:
+        with guarded(g, 'scrypt', "scrypt"):
+            s = by["scrypt"]
+            for key, fmt in (("block_size", "r=%d,"), ("parallelism", "p=%d$")):
+                for v in (1, 2, 4, "3"):
+                    child = s.h.using(rounds=2, **{key: v})
+                    hs = s.hash(child)
+                    g.case(("scrypt", key, v))
+                    g.check(getattr(child, key) == int(v) and (fmt % int(v)) in hs and getattr(s.parse(child, hs), key) == int(v), f"{key}:scrypt", "hash does not carry the configured value", {"using": {key: v}, "hash": hs})
+                    g.check(child.needs_update(hs) is False, "fresh-flagged:scrypt", "own fresh hash flagged", {"using": {key: v}, "hash": hs})
+                    g.check(s.h.using(rounds=2).needs_update(hs) is (int(v) != getattr(s.h, key)), f"{key}-update:scrypt", "update check does not flag exactly the hashes with a different value", {"using": {key: v}, "hash": hs})
+                refused(g, s, f"{key}-refusal:scrypt", "value below 1 accepted", rounds=2, **{key: 0})
+                o = outcome(s.h.using, rounds=2, relaxed=True, **{key: 0})
+                g.case(("scrypt", key, "relaxed-0"))
+                g.check(o[0] == "ok" and getattr(o[1], key) == 1, f"{key}-relaxed:scrypt", "relaxed=True does not clamp to 1", {"outcome": repr(o)[:160]})
+            # found: using() validates the combination of the class it was called on, not of the result
+            o = outcome(s.h.using, rounds=2, block_size=2**29, parallelism=4)
+            g.case(("scrypt", "invalid-combination"))
+            if o[0] == "ok":
+                o2 = outcome(o[1].hash, PW)
+                g.check(o2[0] == "ok", "scrypt:invalid-combination-accepted", "using() accepts block_size * parallelism >= 2**30 (it validates the parent's settings instead of the new ones); the derived hasher cannot hash: " + repr(o2)[:120], {"using": "scrypt.using(rounds=2, block_size=2**29, parallelism=4)"})
+            else:
+                g.check(o[3], "scrypt:invalid-combination-accepted", "invalid combination refused with something else than a value error", {"outcome": repr(o)})
+            frame(g, s, "block_size / parallelism")
     if "scram" in by:
-        s = by["scram"]
-        for algs, want in ((["sha-1", "sha-256"], ["sha-1", "sha-256"]), ("sha-512, sha-1", ["sha-1", "sha-512"]), (["SHA1", "sha256", "md5"], ["md5", "sha-1", "sha-256"]), ("sha-1", ["sha-1"])):
-            child = s.h.using(algs=algs, rounds=2)
-            hs = s.hash(child)
-            g.case(("scram", "algs", repr(algs)))
-            g.check(list(child.default_algs) == want and sorted(s.parse(child, hs).algs) == want, "algs:scram", "hash does not carry the configured algorithms", {"algs": algs, "hash": hs})
-            g.check(child.needs_update(hs) is False, "fresh-flagged:scram", "own fresh hash flagged", {"algs": algs})
-        for bad in (["sha-256"], "sha-256,sha-512", ["sha-1", "sha3-256-long-name"]):
-            refused(g, s, "algs-refusal:scram", "algorithm list without sha-1 / with an over-long name accepted", algs=bad)
-        frame(g, s, "algs")
+        with guarded(g, 'scram', "scram"):
+            s = by["scram"]
+            for algs, want in ((["sha-1", "sha-256"], ["sha-1", "sha-256"]), ("sha-512, sha-1", ["sha-1", "sha-512"]), (["SHA1", "sha256", "md5"], ["md5", "sha-1", "sha-256"]), ("sha-1", ["sha-1"])):
+                child = s.h.using(algs=algs, rounds=2)
+                hs = s.hash(child)
+                g.case(("scram", "algs", repr(algs)))
+                g.check(list(child.default_algs) == want and sorted(s.parse(child, hs).algs) == want, "algs:scram", "hash does not carry the configured algorithms", {"algs": algs, "hash": hs})
+                g.check(child.needs_update(hs) is False, "fresh-flagged:scram", "own fresh hash flagged", {"algs": algs})
+            for bad in (["sha-256"], "sha-256,sha-512", ["sha-1", "sha3-256-long-name"]):
+                refused(g, s, "algs-refusal:scram", "algorithm list without sha-1 / with an over-long name accepted", algs=bad)
+            frame(g, s, "algs")
     for s in subjects:
-        if "truncate_error" not in s.h.setting_kwds:
-            continue
-        size = s.h.truncate_size
-        long_pw = "x" * (size + 1)
-        base_h = s.h.using(rounds=s.lo) if s.has_rounds else s.h
-        for val, want in ((True, True), (False, False), ("true", True), ("no", False), ("1", True), (0, False)):
-            child = base_h.using(truncate_error=val)
-            o = outcome(child.hash, long_pw, **s.kw)
-            o_ok = outcome(child.hash, "x" * size, **s.kw)
-            g.case((s.name, "truncate_error", repr(val)))
-            g.check(child.truncate_error is want, f"truncate-attr:{s.name}", "truncate_error not taken over", {"hasher": s.name, "value": repr(val), "got": repr(child.truncate_error)})
-            g.check((o[0] == "exc" and o[1] == "PasswordTruncateError") if want else o[0] == "ok", f"truncate-policy:{s.name}", "over-long password not refused / not accepted per the configured policy", {"hasher": s.name, "value": repr(val), "outcome": repr(o)[:160]})
-            g.check(o_ok[0] == "ok", f"truncate-policy:{s.name}", "password of exactly the size limit refused", {"hasher": s.name, "value": repr(val), "outcome": repr(o_ok)[:160]})
-        refused(g, s, f"truncate-refusal:{s.name}", "unrecognised boolean accepted", truncate_error="maybe")
-        frame(g, s, "truncate_error")
+        with guarded(g, s.name, "truncate_error"):
+            if "truncate_error" not in s.h.setting_kwds:
+                continue
+            size = s.h.truncate_size
+            long_pw = "x" * (size + 1)
+            base_h = s.h.using(rounds=s.lo) if s.has_rounds else s.h
+            for val, want in ((True, True), (False, False), ("true", True), ("no", False), ("1", True), (0, False)):
+                child = base_h.using(truncate_error=val)
+                o = outcome(child.hash, long_pw, **s.kw)
+                o_ok = outcome(child.hash, "x" * size, **s.kw)
+                g.case((s.name, "truncate_error", repr(val)))
+                g.check(child.truncate_error is want, f"truncate-attr:{s.name}", "truncate_error not taken over", {"hasher": s.name, "value": repr(val), "got": repr(child.truncate_error)})
+                g.check((o[0] == "exc" and o[1] == "PasswordTruncateError") if want else o[0] == "ok", f"truncate-policy:{s.name}", "over-long password not refused / not accepted per the configured policy", {"hasher": s.name, "value": repr(val), "outcome": repr(o)[:160]})
+                g.check(o_ok[0] == "ok", f"truncate-policy:{s.name}", "password of exactly the size limit refused", {"hasher": s.name, "value": repr(val), "outcome": repr(o_ok)[:160]})
+            refused(g, s, f"truncate-refusal:{s.name}", "unrecognised boolean accepted", truncate_error="maybe")
+            frame(g, s, "truncate_error")
     if "unix_disabled" in by:
-        s = by["unix_disabled"]
-        for m in ("*", "!", "!locked", "*LK*"):
-            child = s.h.using(marker=m)
-            g.case(("unix_disabled", "marker", m))
-            g.check(child.hash(PW) == m and s.h.hash(PW) == s.h.default_marker, "marker:unix_disabled", "disabled marker not carried / parent changed", {"marker": m, "got": child.hash(PW)})
-        for bad in ("abc", "$1$abc", "x!"):
-            refused(g, s, "marker-refusal:unix_disabled", "string that is not a disabled marker accepted", marker=bad)
-        frame(g, s, "marker")
+        with guarded(g, 'unix_disabled', "unix_disabled"):
+            s = by["unix_disabled"]
+            for m in ("*", "!", "!locked", "*LK*"):
+                child = s.h.using(marker=m)
+                g.case(("unix_disabled", "marker", m))
+                g.check(child.hash(PW) == m and s.h.hash(PW) == s.h.default_marker, "marker:unix_disabled", "disabled marker not carried / parent changed", {"marker": m, "got": child.hash(PW)})
+            for bad in ("abc", "$1$abc", "x!"):
+                refused(g, s, "marker-refusal:unix_disabled", "string that is not a disabled marker accepted", marker=bad)
+            frame(g, s, "marker")
     if "cisco_type7" in by:
-        s = by["cisco_type7"]
-        for v in (0, 1, 9, 10, 52):
-            child = s.h.using(salt=v)
-            hs = child.hash(PW)
-            g.case(("cisco_type7", "salt", v))
-            g.check(hs.startswith("%02d" % v) and s.h.from_string(hs).salt == v and child.verify(PW, hs), "salt:cisco_type7", "hash does not carry the configured salt", {"salt": v, "hash": hs})
-        for bad, lim in ((53, 52), (-1, 0)):
-            refused(g, s, "salt-refusal:cisco_type7", "salt outside 0..52 accepted", salt=bad)
-            o = outcome(s.h.using, salt=bad, relaxed=True)
-            g.case(("cisco_type7", "salt-relaxed", bad))
-            g.check(o[0] == "ok" and o[1].hash(PW).startswith("%02d" % lim), "salt-relaxed:cisco_type7", "relaxed=True does not clamp the salt", {"salt": bad, "outcome": repr(o)[:120]})
-        frame(g, s, "salt")
-    # hashers without settings: using() still gives a distinct hasher; unknown settings are type errors
+        with guarded(g, 'cisco_type7', "cisco_type7"):
+            s = by["cisco_type7"]
+            for v in (0, 1, 9, 10, 52):
+                child = s.h.using(salt=v)
+                hs = child.hash(PW)
+                g.case(("cisco_type7", "salt", v))
+                g.check(hs.startswith("%02d" % v) and s.h.from_string(hs).salt == v and child.verify(PW, hs), "salt:cisco_type7", "hash does not carry the configured salt", {"salt": v, "hash": hs})
+            for bad, lim in ((53, 52), (-1, 0)):
+                refused(g, s, "salt-refusal:cisco_type7", "salt outside 0..52 accepted", salt=bad)
+                o = outcome(s.h.using, salt=bad, relaxed=True)
+                g.case(("cisco_type7", "salt-relaxed", bad))
+                g.check(o[0] == "ok" and o[1].hash(PW).startswith("%02d" % lim), "salt-relaxed:cisco_type7", "relaxed=True does not clamp the salt", {"salt": bad, "outcome": repr(o)[:120]})
+            frame(g, s, "salt")
+        # hashers without settings: using() still gives a distinct hasher; unknown settings are type errors
     for s in subjects:
-        o = outcome(s.h.using)
-        g.case((s.name, "plain"))
-        if g.check(o[0] == "ok" and o[1] is not s.h, f"plain-using:{s.name}", "using() without settings does not return a new hasher", {"hasher": s.name, "outcome": repr(o)[:120]}):
-            g.check(o[1].name == s.h.name and o[1].setting_kwds == s.h.setting_kwds, f"plain-using:{s.name}", "plain copy differs in name / settings", {"hasher": s.name})
-            if not s.has_rounds or s.f["default"] <= 20:
-                hs = s.hash(o[1])
-                g.check(s.h.identify(hs) and (getattr(s.h, "is_disabled", False) or s.h.verify(PW, hs, **s.kw)), f"plain-using:{s.name}", "hash of the plain copy not accepted by the original", {"hasher": s.name, "hash": hs})
-        o = outcome(s.h.using, no_such_setting=1)
-        g.check(o[0] == "exc" and o[1] == "TypeError", f"unknown-setting:{s.name}", "unknown setting accepted", {"hasher": s.name, "outcome": repr(o)[:120]})
-        frame(g, s, "plain using()")
+        with guarded(g, s.name, "plain"):
+            o = outcome(s.h.using)
+            g.case((s.name, "plain"))
+            if g.check(o[0] == "ok" and o[1] is not s.h, f"plain-using:{s.name}", "using() without settings does not return a new hasher", {"hasher": s.name, "outcome": repr(o)[:120]}):
+                g.check(o[1].name == s.h.name and o[1].setting_kwds == s.h.setting_kwds, f"plain-using:{s.name}", "plain copy differs in name / settings", {"hasher": s.name})
+                if not s.has_rounds or s.f["default"] <= 20:
+                    hs = s.hash(o[1], limit=False)
+                    g.check(s.h.identify(hs) and (getattr(s.h, "is_disabled", False) or s.h.verify(PW, hs, **s.kw)), f"plain-using:{s.name}", "hash of the plain copy not accepted by the original", {"hasher": s.name, "hash": hs})
+            o = outcome(s.h.using, no_such_setting=1)
+            g.check(o[0] == "exc" and o[1] == "TypeError", f"unknown-setting:{s.name}", "unknown setting accepted", {"hasher": s.name, "outcome": repr(o)[:120]})
+            frame(g, s, "plain using()")
     groups.append(g)
 
     # =============================================================================================
@@ -504,94 +535,96 @@ def build(tier, rng):
             nd = nhi
         return (nlo, nhi, nd, opts.get("vary_rounds", vary))
 
-    n_chains = 12 if not thorough else 150
+    n_chains = 40 if not thorough else 400
     for s in subjects:
-        if not s.has_rounds or s.name in SLOW:
-            continue
-        f = s.f
-        step = 2 if s.name.endswith("bsdi_crypt") else 1
-        vals = [s.lo + i * step for i in range(5)] if f["cost"] == "linear" else [f["hmin"] + i for i in range(4)]
-        for _ in range(n_chains):
-            # first link always pins a cheap window so that every later link is cheap to hash with
-            a, c, b = sorted(rng.choice(vals) for _ in range(3))
-            chain = [dict(min_rounds=a, max_rounds=b, default_rounds=c)]
-            st = (a, b, c, None)
-            states = [st]
-            expect_invalid = False
-            for _ in range(rng.randrange(1, 4)):
-                for _try in range(20):
-                    keys = rng.sample(["min_rounds", "max_rounds", "default_rounds", "rounds", "vary_rounds"], rng.randrange(1, 4))
-                    opts = {k: (rng.choice([0, 1, 2, 0.5, "50%"]) if k == "vary_rounds" else rng.choice(vals)) for k in keys}
-                    nst = model_step(st, opts, f, vals)
-                    if nst == "avoid" or (nst == "invalid" and rng.random() < 0.8):
-                        continue
-                    break
-                else:
-                    opts, nst = {"default_rounds": st[2]}, st
-                chain.append(opts)
-                if nst == "invalid":
-                    expect_invalid = True
-                    break
-                st = nst
-                states.append(st)
-            if rng.random() < 0.3:
-                opts = {k: (str(v) if isinstance(v, int) and rng.random() < 0.5 else v) for k, v in chain[-1].items()}
-                chain[-1] = opts
-            g.case((s.name, repr(chain)))
-            links = [s.h]
-            snaps = [base[s.name]]
-            ok = True
-            for i, opts in enumerate(chain):
-                o = outcome(links[-1].using, **opts)
-                last = i == len(chain) - 1
-                if last and expect_invalid:
-                    g.check(o[0] == "exc" and o[3], f"chain-refusal:{s.name}", "inconsistent later setting accepted", {"hasher": s.name, "chain": repr(chain), "outcome": repr(o)[:160]})
-                    ok = False
-                    break
-                if not g.check(o[0] == "ok", f"chain-accept:{s.name}", "consistent chain refused", {"hasher": s.name, "chain": repr(chain), "at": i, "outcome": repr(o)[:200]}):
-                    ok = False
-                    break
-                g.check(o[1] is not links[-1], f"chain-fresh:{s.name}", "using() returned the hasher it was called on", {"hasher": s.name, "chain": repr(chain)})
-                links.append(o[1])
-                snaps.append(snapshot(o[1], uh))
-            # interleaved use: last to first, then first to last; every link follows its own state
-            order = list(range(1, len(links))) if ok or len(links) > 1 else []
-            for i in list(reversed(order)) + order:
-                lo_, hi_, d_, vary_ = states[i - 1]
-                hh = links[i]
-                w = P.window(f, {k: v for k, v in dict(min_rounds=lo_, max_rounds=hi_, default_rounds=d_, vary_rounds=vary_).items() if v is not None})
-                g.check((hh.min_desired_rounds, hh.max_desired_rounds, hh.default_rounds) == (lo_, hi_, d_), f"chain-attrs:{s.name}", "derived hasher's window differs from the sequential model", {"hasher": s.name, "chain": repr(chain), "link": i, "got": [hh.min_desired_rounds, hh.max_desired_rounds, hh.default_rounds], "want": [lo_, hi_, d_]})
-                hs = s.hash(hh)
-                c = s.parse(hh, hs).rounds
-                g.check(P.fresh_cost_ok("bsdi_crypt" if s.name.endswith("bsdi_crypt") else s.name, c, w), f"chain-cost:{s.name}", "hash of a chain link does not carry that link's cost", {"hasher": s.name, "chain": repr(chain), "link": i, "cost": c, "range": [w["glo"], w["ghi"]]})
-                g.check(hh.needs_update(hs) is False, f"chain-fresh-flagged:{s.name}", "a chain link flags its own fresh hash", {"hasher": s.name, "chain": repr(chain), "link": i, "hash": hs})
-            for i in range(len(links)):
-                d = diff(snaps[i], snapshot(links[i], uh))
-                g.check(not d, f"chain-frame:{s.name}", "a link changed after hashers were derived from it / used", {"hasher": s.name, "chain": repr(chain), "link": i, "changed": d[:8]})
-        frame(g, s, "chains")
-    # mixed-option chains: cost, salt size and identifier settings are inherited independently
+        with guarded(g, s.name, "chains"):
+            if not s.has_rounds or s.name in SLOW:
+                continue
+            f = s.f
+            step = 2 if s.name.endswith("bsdi_crypt") else 1
+            vals = [s.lo + i * step for i in range(5)] if f["cost"] == "linear" else [f["hmin"] + i for i in range(4)]
+            for _ in range(n_chains):
+                # first link always pins a cheap window so that every later link is cheap to hash with
+                a, c, b = sorted(rng.choice(vals) for _ in range(3))
+                chain = [dict(min_rounds=a, max_rounds=b, default_rounds=c)]
+                st = (a, b, c, None)
+                states = [st]
+                expect_invalid = False
+                for _ in range(rng.randrange(1, 4)):
+                    for _try in range(20):
+                        keys = rng.sample(["min_rounds", "max_rounds", "default_rounds", "rounds", "vary_rounds"], rng.randrange(1, 4))
+                        opts = {k: (rng.choice([0, 1, 2, 0.5, "50%"]) if k == "vary_rounds" else rng.choice(vals)) for k in keys}
+                        nst = model_step(st, opts, f, vals)
+                        if nst == "avoid" or (nst == "invalid" and rng.random() < 0.8):
+                            continue
+                        break
+                    else:
+                        opts, nst = {"default_rounds": st[2]}, st
+                    chain.append(opts)
+                    if nst == "invalid":
+                        expect_invalid = True
+                        break
+                    st = nst
+                    states.append(st)
+                if rng.random() < 0.3:
+                    opts = {k: (str(v) if isinstance(v, int) and rng.random() < 0.5 else v) for k, v in chain[-1].items()}
+                    chain[-1] = opts
+                g.case((s.name, repr(chain)))
+                links = [s.h]
+                snaps = [base[s.name]]
+                ok = True
+                for i, opts in enumerate(chain):
+                    o = outcome(links[-1].using, **opts)
+                    last = i == len(chain) - 1
+                    if last and expect_invalid:
+                        g.check(o[0] == "exc" and o[3], f"chain-refusal:{s.name}", "inconsistent later setting accepted", {"hasher": s.name, "chain": repr(chain), "outcome": repr(o)[:160]})
+                        ok = False
+                        break
+                    if not g.check(o[0] == "ok", f"chain-accept:{s.name}", "consistent chain refused", {"hasher": s.name, "chain": repr(chain), "at": i, "outcome": repr(o)[:200]}):
+                        ok = False
+                        break
+                    g.check(o[1] is not links[-1], f"chain-fresh:{s.name}", "using() returned the hasher it was called on", {"hasher": s.name, "chain": repr(chain)})
+                    links.append(o[1])
+                    snaps.append(snapshot(o[1], uh))
+                # interleaved use: last to first, then first to last; every link follows its own state
+                order = list(range(1, len(links))) if ok or len(links) > 1 else []
+                for i in list(reversed(order)) + order:
+                    lo_, hi_, d_, vary_ = states[i - 1]
+                    hh = links[i]
+                    w = P.window(f, {k: v for k, v in dict(min_rounds=lo_, max_rounds=hi_, default_rounds=d_, vary_rounds=vary_).items() if v is not None})
+                    g.check((hh.min_desired_rounds, hh.max_desired_rounds, hh.default_rounds) == (lo_, hi_, d_), f"chain-attrs:{s.name}", "derived hasher's window differs from the sequential model", {"hasher": s.name, "chain": repr(chain), "link": i, "got": [hh.min_desired_rounds, hh.max_desired_rounds, hh.default_rounds], "want": [lo_, hi_, d_]})
+                    hs = s.hash(hh)
+                    c = s.parse(hh, hs).rounds
+                    g.check(P.fresh_cost_ok("bsdi_crypt" if s.name.endswith("bsdi_crypt") else s.name, c, w), f"chain-cost:{s.name}", "hash of a chain link does not carry that link's cost", {"hasher": s.name, "chain": repr(chain), "link": i, "cost": c, "range": [w["glo"], w["ghi"]]})
+                    g.check(hh.needs_update(hs) is False, f"chain-fresh-flagged:{s.name}", "a chain link flags its own fresh hash", {"hasher": s.name, "chain": repr(chain), "link": i, "hash": hs})
+                for i in range(len(links)):
+                    d = diff(snaps[i], snapshot(links[i], uh))
+                    g.check(not d, f"chain-frame:{s.name}", "a link changed after hashers were derived from it / used", {"hasher": s.name, "chain": repr(chain), "link": i, "changed": d[:8]})
+            frame(g, s, "chains")
+        # mixed-option chains: cost, salt size and identifier settings are inherited independently
     for s in subjects:
-        if not s.has_rounds or "salt_size" not in s.h.setting_kwds or s.name in SLOW:
-            continue
-        mn, mx = s.h.min_salt_size, s.h.max_salt_size
-        sz1, sz2 = max(mn, 1) + 1, max(mn, 1) + 3
-        if mx and sz2 > mx:
-            continue
-        c1 = s.h.using(rounds=s.lo)
-        c2 = c1.using(salt_size=sz1)
-        c3 = c2.using(rounds=s.mid)
-        c4 = c3.using(salt_size=sz2, relaxed=True)
-        snaps = [snapshot(c, uh) for c in (c1, c2, c3, c4)]
-        want = [(s.lo, None), (s.lo, sz1), (s.mid, sz1), (s.mid, sz2)]
-        g.case((s.name, "mixed-chain"))
-        for c, (r, sz) in list(zip((c1, c2, c3, c4), want))[::-1] + list(zip((c1, c2, c3, c4), want)):
-            hs = s.hash(c)
-            p = s.parse(c, hs)
-            g.check(p.rounds == r and (sz is None or len(p.salt) == sz), f"mixed-chain:{s.name}", "cost / salt size of a link not inherited independently", {"hasher": s.name, "hash": hs, "want": [r, sz]})
-        for c, sn in zip((c1, c2, c3, c4), snaps):
-            d = diff(sn, snapshot(c, uh))
-            g.check(not d, f"chain-frame:{s.name}", "a link changed after use", {"hasher": s.name, "changed": d[:8]})
-        frame(g, s, "mixed chain")
+        with guarded(g, s.name, "mixed-chain"):
+            if not s.has_rounds or "salt_size" not in s.h.setting_kwds or s.name in SLOW:
+                continue
+            mn, mx = s.h.min_salt_size, s.h.max_salt_size
+            sz1, sz2 = max(mn, 1) + 1, max(mn, 1) + 3
+            if mx and sz2 > mx:
+                continue
+            c1 = s.h.using(rounds=s.lo)
+            c2 = c1.using(salt_size=sz1)
+            c3 = c2.using(rounds=s.mid)
+            c4 = c3.using(salt_size=sz2, relaxed=True)
+            snaps = [snapshot(c, uh) for c in (c1, c2, c3, c4)]
+            want = [(s.lo, None), (s.lo, sz1), (s.mid, sz1), (s.mid, sz2)]
+            g.case((s.name, "mixed-chain"))
+            for c, (r, sz) in list(zip((c1, c2, c3, c4), want))[::-1] + list(zip((c1, c2, c3, c4), want)):
+                hs = s.hash(c)
+                p = s.parse(c, hs)
+                g.check(p.rounds == r and (sz is None or len(p.salt) == sz), f"mixed-chain:{s.name}", "cost / salt size of a link not inherited independently", {"hasher": s.name, "hash": hs, "want": [r, sz]})
+            for c, sn in zip((c1, c2, c3, c4), snaps):
+                d = diff(sn, snapshot(c, uh))
+                g.check(not d, f"chain-frame:{s.name}", "a link changed after use", {"hasher": s.name, "changed": d[:8]})
+            frame(g, s, "mixed chain")
     groups.append(g)
 
     # =============================================================================================
@@ -605,47 +638,49 @@ def build(tier, rng):
         ("sha256_crypt", dict(min_rounds=3000, default_rounds=3000), dict(max_rounds=2000)),
         ("pbkdf2_sha256", dict(min_rounds=20), dict(max_rounds=10)),
     ):
-        if name not in by:
-            continue
-        s = by[name]
-        c1 = s.h.using(**first)
-        o = outcome(c1.using, **second)
-        g.case((name, repr(first), repr(second)))
-        wit = {"call": f"{name}.using(**{first!r}).using(**{second!r})"}
-        if o[0] == "exc":
-            g.check(o[3], KEY, "refused with something else than a value error", dict(wit, outcome=repr(o)))
-            continue
-        c2 = o[1]
-        lo_, hi_, d_ = c2.min_desired_rounds, c2.max_desired_rounds, c2.default_rounds
-        if not g.check(lo_ is None or hi_ is None or lo_ <= hi_, KEY, "accepted with an empty window (min above max)", dict(wit, window=[lo_, hi_], default=d_)):
-            continue
-        if d_ <= 3000:
-            hs = s.hash(c2)
-            g.check(c2.needs_update(hs) is False, KEY, "fresh hash of the derived hasher flagged by its own update check", dict(wit, hash=hs))
+        with guarded(g, name, "chained"):
+            if name not in by:
+                continue
+            s = by[name]
+            c1 = s.h.using(**first)
+            o = outcome(c1.using, **second)
+            g.case((name, repr(first), repr(second)))
+            wit = {"call": f"{name}.using(**{first!r}).using(**{second!r})"}
+            if o[0] == "exc":
+                g.check(o[3], KEY, "refused with something else than a value error", dict(wit, outcome=repr(o)))
+                continue
+            c2 = o[1]
+            lo_, hi_, d_ = c2.min_desired_rounds, c2.max_desired_rounds, c2.default_rounds
+            if not g.check(lo_ is None or hi_ is None or lo_ <= hi_, KEY, "accepted with an empty window (min above max)", dict(wit, window=[lo_, hi_], default=d_)):
+                continue
+            if d_ <= 3000:
+                hs = s.hash(c2, limit=False)
+                g.check(c2.needs_update(hs) is False, KEY, "fresh hash of the derived hasher flagged by its own update check", dict(wit, hash=hs))
     groups.append(g)
 
     # =============================================================================================
     g = Group("globals-unchanged", "passlib.hash.<name> after all of the above", "every hasher: attribute snapshot identical to the one taken before the first using(); passlib.hash.<name> / registry object identity; default-cost hash format (salt size, identifier, cost) for hashers whose default is cheap (thorough: all)")
     for s in subjects:
-        g.case(s.name)
-        frame(g, s, "end of run")
-        cheap = not s.has_rounds or (s.f["cost"] == "log2" and s.f["default"] <= 12 and "bcrypt" not in s.name)
-        if (cheap or thorough) and s.name not in SLOW:
-            try:
-                hs = s.hash(s.h)
-                p = s.parse(s.h, hs) if hasattr(s.h if not s.wrapper else s.h.wrapped, "from_string") else None
-            except Exception as err:  # noqa: BLE001
-                g.fail(f"global-hash:{s.name}", f"pristine hasher can no longer hash: {type(err).__name__}: {err}"[:160], {"hasher": s.name})
-                continue
-            if p is None:
-                continue
-            if s.has_rounds:
-                want = s.f["default"] | 1 if s.name.endswith("bsdi_crypt") else s.f["default"]
-                g.check(p.rounds == want, f"global-format:{s.name}", "pristine hasher no longer uses its default cost", {"hasher": s.name, "hash": hs})
-            if "salt_size" in s.h.setting_kwds:
-                g.check(len(p.salt) == s.h.default_salt_size, f"global-format:{s.name}", "pristine hasher no longer uses its default salt size", {"hasher": s.name, "hash": hs})
-            if getattr(s.h, "default_ident", None) and not s.wrapper:
-                g.check(p.ident == s.h.default_ident, f"global-format:{s.name}", "pristine hasher no longer uses its default identifier", {"hasher": s.name, "hash": hs})
+        with guarded(g, s.name, "globals"):
+            g.case(s.name)
+            frame(g, s, "end of run")
+            cheap = not s.has_rounds or (s.f["cost"] == "log2" and s.f["default"] <= 12 and "bcrypt" not in s.name)
+            if (cheap or thorough) and s.name not in SLOW:
+                try:
+                    hs = s.hash(s.h, limit=False)
+                    p = s.parse(s.h, hs) if hasattr(s.h if not s.wrapper else s.h.wrapped, "from_string") else None
+                except Exception as err:  # noqa: BLE001
+                    g.fail(f"global-hash:{s.name}", f"pristine hasher can no longer hash: {type(err).__name__}: {err}"[:160], {"hasher": s.name})
+                    continue
+                if p is None:
+                    continue
+                if s.has_rounds:
+                    want = s.f["default"] | 1 if s.name.endswith("bsdi_crypt") else s.f["default"]
+                    g.check(p.rounds == want, f"global-format:{s.name}", "pristine hasher no longer uses its default cost", {"hasher": s.name, "hash": hs})
+                if "salt_size" in s.h.setting_kwds:
+                    g.check(len(p.salt) == s.h.default_salt_size, f"global-format:{s.name}", "pristine hasher no longer uses its default salt size", {"hasher": s.name, "hash": hs})
+                if getattr(s.h, "default_ident", None) and not s.wrapper:
+                    g.check(p.ident == s.h.default_ident, f"global-format:{s.name}", "pristine hasher no longer uses its default identifier", {"hasher": s.name, "hash": hs})
     groups.append(g)
     return groups, skipped, {"hashers": len(subjects)}
 
